@@ -28,6 +28,13 @@ Example results_standalone_witness :
   fst (run wit_cfg (init wit_cfg) wit_h) = [ODone; ODone; OSamplesDec [0]; OSamplesDec [0]].
 Proof. split; [reflexivity | exact wit_outputs]. Qed.
 
+(* the witness is minimal: every history of at most 3 operations stands alone *)
+Theorem results_standalone_minimal :
+  forall cfg h, cfg_wf cfg -> length h <= 3 -> hist_wf cfg 0 h = true ->
+                oracles_ok cfg (init cfg) h = true -> standalone cfg h.
+Proof. exact short_histories_standalone. Qed.
+Print Assumptions results_standalone_minimal.
+
 (* PART THAT HOLDS: histories in which samples()/frequencies() are only ever called on one
    result r0 of the circuit object (any number of executions before/after, probabilities() on
    any result, circuit.final_state, any accessor order and flags).
